@@ -136,8 +136,17 @@ class FacadeSpace(Subspace):
                         ("array", lambda: dict(by=kcol.copy()), lambda: dict(by=kcol.copy()), df[["x", "y"]]),
                         ("series", lambda: dict(by=df["k"]), lambda: dict(by=df["k"]), df[["x", "y"]])]
             if ixname == "default":
+                # a level NAME given through `by` (two-level index: key, row number)
+                dfm = pd.DataFrame({"x": X, "y": Y},
+                                   index=pd.MultiIndex.from_arrays([kcol, np.arange(n)], names=["k", "r"]))
                 keyspecs += [("level-name", lambda: dict(level="k"), lambda: dict(level="k"), dfl),
-                             ("level-number", lambda: dict(level=0), lambda: dict(level=0), dfl)]
+                             ("level-number", lambda: dict(level=0), lambda: dict(level=0), dfl),
+                             ("by-level-name", lambda: dict(by="k"), lambda: dict(by="k"), dfm)]
+            if ixname in ("shuffled", "strings") and len(set(idx)) == n:
+                # a callable is applied to the index labels
+                lab2key = dict(zip(list(idx), kcol.tolist()))
+                keyspecs.append(("callable", lambda: dict(by=lambda lab: lab2key[lab]),
+                                 lambda: dict(by=lambda lab: lab2key[lab]), df[["x", "y"]]))
             if light:
                 keyspecs = keyspecs[:1] + keyspecs[2:3]
             for ksname, fkw, pkw, frame in keyspecs:
@@ -310,12 +319,19 @@ class FacadeSpace(Subspace):
                           ("apply(np.min)", lambda g: g.apply(np.min), lambda g: g.apply(vals, np.min)),
                           ("median", lambda g: g.median(), lambda g: g.median(vals)),
                           ("quantile", lambda g: g.quantile([0.5]), lambda g: g.quantile(vals, q=[0.5])),
-                          ("ema", lambda g: g.ema(alpha=0.5), lambda g: g.ema(vals, alpha=0.5))):
+                          ("ema", lambda g: g.ema(alpha=0.5), lambda g: g.ema(vals, alpha=0.5)),
+                          # row selection: whatever the core engine does for the same call (today it
+                          # raises for the default keep_input_index=False, see F-C18-row-selection-...)
+                          ("head(1)", lambda g: g.head(1), lambda g: g.head(vals, 1)),
+                          ("tail(2)", lambda g: g.tail(2), lambda g: g.tail(vals, 2)),
+                          ("nth(0)", lambda g: g.nth(0), lambda g: g.nth(vals, 0))):
             res.execs += 1
             got, err = self._run(lambda: ff(fast()))
             want, cerr = self._run(lambda: cf(GroupBy(kcol.copy())))
             tag = f"{m} {tag0}"
             if cerr:
+                if m[:4] in ("head", "tail", "nth(") and not err:
+                    res.fail("core", f"{tag}: the facade returns although the core engine raises {cerr}")
                 continue
             if err:
                 res.fail("total", f"{tag}: raised {err} (the core engine returns)")
